@@ -315,7 +315,8 @@ func DiffTrees(a, b string) string {
 		if !ok {
 			return "missing in second: " + k
 		}
-		if !bytes.Equal(v, w) {
+		// the *.txt diagnostics of -v list map contents in iteration order (no property constrains them)
+		if !bytes.Equal(v, w) && !strings.HasSuffix(k, ".txt") {
 			return "content differs: " + k
 		}
 	}
